@@ -300,14 +300,15 @@ def search(ctx):
     small = src
     if bad == "accepted" and not k.startswith("multi-file"):
         # shrink while the program stays accepted and still contains the planted construct
-        planted = [p for p in tg.C03_KINDS.get(k, (None, None)) if p]
-        needle = planted[0] if planted and isinstance(planted[0], str) else (planted[0][0] if planted else None)
+        ex, st = tg.C03_KINDS.get(k, (None, None))
+        # every line of the planted construct has to stay in the program
+        needles = [l.strip() for l in st] if st else ([ex] if ex else [])
         if k == "ret-type":
-            needle = "ret "
+            needles = ["ret "]
 
         def still(cands):
             acc = accepted(cands)
-            return [a and (needle is None or needle in c) for a, c in zip(acc, cands)]
+            return [a and all(n in c for n in needles) for a, c in zip(acc, cands)]
         small = shrink_program(src, still)
     return {"source": small, "kind": k, "position": info, "what": "planted %s: %s (the property demands Err with >= 1 error "
             "and 0 bytes of Lua)" % (k, bad), "class": cls, "failing_inputs_found": len(unknown),
